@@ -114,7 +114,19 @@ def _feed(args):
             rle.append([d, 1])
     others = all(val(getattr(target, n)) == before[n] for n in names if n != cname)
     vt = ctl.value_type
-    return {"op": "feed", "t": t, "ctl": cname, "lo": vt.min, "hi": vt.max, "gain": gain, "quant": quant, "wmin": wmin, "wmax": wmax,
+    # the same input fed again after the target was written by hand in between (a user's tweak): delivered again
+    rew = []
+    if outcome == "ok" and not unmapped and not wide and type(vt).__name__ == "Range":
+        try:
+            for v in (0, 8192, 16384, 32768, 16384, 0):
+                mc.value = v
+                d1 = val(getattr(target, cname))
+                setattr(target, cname, vt.min if d1 != vt.min else vt.max)
+                mc.value = v
+                rew.append([v, d1, val(getattr(target, cname))])
+        except Exception:
+            rew.append([-1, 0, -777777])
+    return {"op": "feed", "rew": rew, "t": t, "ctl": cname, "lo": vt.min, "hi": vt.max, "gain": gain, "quant": quant, "wmin": wmin, "wmax": wmax,
             "curve": "default" if curve is None else "custom", "unmapped": unmapped, "chained": bool(chained), "initial": initial, "rle": rle,
             "outcome": outcome, "bad_input": bad, "others_unchanged": bool(others), "wide": bool(wide), "out_offset": out_offset,
             "kind": "range" if type(vt).__name__ == "Range" else type(vt).__name__}
@@ -261,6 +273,17 @@ def run(ctx):
             return out
         events.append(do_macro(many))
         ctx.count_case(("macro-many", n))
+    # ... targets named in an order other than the order of their modules in the project (link i goes with mapping i)
+    for n in (2, 3, 5, 16):
+        for order in ("reversed", "rotated"):
+            def unordered(p, mods, n=n, order=order):
+                out = []
+                for k in range(n):
+                    cl = simple[k % len(simple)]
+                    out.append((p.new_module(cl), spec[cl.mtype]["ctls"][k % 2]["name"]))
+                return out[::-1] if order == "reversed" else out[1:] + out[:1]
+            events.append(do_macro(unordered))
+            ctx.count_case(("macro-unordered", n, order))
     for dup_at in (1, 2, 5):
         def dup(p, mods, dup_at=dup_at):
             out = []
